@@ -401,6 +401,69 @@ def rule_r6(facts, col, rule_id="C01.R6"):
                 col.ok(rule_id, key, body.where(bb), "compare-and-subtract wrap: un-subtracted value only behind value < capacity()")
 
 
+WINDOW_ADTS = ("circular_buffer::BufferReader", "circular_buffer::BufferWriter")
+
+
+def _last_field(e):
+    e = peel(e, through_try=False)
+    n = 0
+    while e is not None and e.k in ("ref", "deref") and n < 4:
+        e = peel(e.a, through_try=False)
+        n += 1
+    return e.name if e is not None and e.k == "field" else None
+
+
+def rule_r8(facts, col):
+    """the window API is faithful: BufferReader::consume(n) / BufferWriter::produce(n, tags) hand exactly their arguments to the
+    ring's consume / commit on every path (a window that swallows the call delivers the same samples again, or never);
+    len() is `end - start` and is_empty() is `end == start` (or `len() == 0`) of the window's own bounds"""
+    for body in facts.bodies:
+        if body.self_adt not in WINDOW_ADTS or body.kind == "closure":
+            continue
+        if body.name in ("consume", "produce"):
+            role = "consume" if body.name == "consume" else "produce"
+            key = "%s:forwards" % body.q
+            fw = []
+            for bb, t in body.calls():
+                for q in Body.callee_qs(t):
+                    for hb in facts.by_q.get(q, []):
+                        if hb.self_adt == BUFFER_ADT and hb.kind != "closure" and (hb.name == role or hb.name.startswith(role)):
+                            args = [peel(body.operand_expr(a), through_try=False) for a in t["args"][1:]]
+                            want = list(range(2, 2 + len(args)))
+                            if [a.idx if a.k == "param" else None for a in args] == want[:len(args)] and len(args) >= (1 if role == "consume" else 2):
+                                fw.append(bb)
+            rets = set(body.return_blocks())
+            if fw and not (body.reachable(0, avoid=set(fw)) & rets) or (fw and 0 in fw):
+                col.ok("C01.R8", key, body.where(fw[0]), "hands (n%s) to Buffer::%s on every path" % (", tags" if role == "produce" else "", role))
+            else:
+                col.bad("C01.R8", key, body.where(),
+                        "%s::%s can return without handing its arguments to Buffer::%s: the ring never learns about the %s, so the same "
+                        "samples are delivered again (or committed samples never become readable)" % (body.self_adt.split("::")[-1], role, role,
+                                                                                                      "release" if role == "consume" else "commit"), {})
+        elif body.name in ("len", "is_empty") and body.argc == 1:
+            key = "%s:bounds" % body.q
+            rets = [peel(expand_local_call(facts, e), through_try=False) for _, _, e in assigns_to_return(body)]
+            ok = bool(rets)
+            for r in rets:
+                if body.name == "len":
+                    good = r.k == "bin" and r.op == "Sub" and _last_field(r.a) == "end" and _last_field(r.b) == "start"
+                else:
+                    good = r.k == "bin" and r.op == "Eq" and {_last_field(r.a), _last_field(r.b)} == {"end", "start"}
+                    if not good and r.k == "bin" and r.op == "Eq":
+                        # len() == 0
+                        for x, y in ((r.a, r.b), (r.b, r.a)):
+                            px = peel(expand_local_call(facts, x), through_try=False)
+                            if is_const(y, 0) and px.k == "bin" and px.op == "Sub" and _last_field(px.a) == "end" and _last_field(px.b) == "start":
+                                good = True
+                ok = ok and good
+            if ok:
+                col.ok("C01.R8", key, body.where(), "%s() is %s of the window's own bounds" % (body.name, "end - start" if body.name == "len" else "end == start"))
+            else:
+                col.bad("C01.R8", key, body.where(),
+                        "%s::%s() is not %s of the window's bounds: every block sizes its work and its waits by this value" % (
+                            body.self_adt.split("::")[-1], body.name, "`end - start`" if body.name == "len" else "`end == start`"), {})
+
+
 def run(ctx):
     facts = ctx.facts("default")
     ctx.anchor("C01", STATE_ADT in facts.adts and BUFFER_ADT in facts.adts, "circular_buffer::{BufferState,Buffer}")
@@ -408,6 +471,8 @@ def run(ctx):
     rule_r2(facts, ctx)
     rule_r3(facts, ctx)
     rule_r4(facts, ctx)
+    rule_r8(facts, ctx)
+    ctx.floor("C01.R8", 6, "consume/produce forwarding + len()/is_empty() of both window types")
     rule_r6(facts, ctx)
     ctx.floor("C01.R6", 2, "stores of rpos (consume) and wpos (produce)")
     ctx.floor("C01.R4", 2, "consume and produce bodies")
